@@ -87,6 +87,12 @@ CLAIMS = {
         "sequential model; thorough tier under the Go race detector with GOMAXPROCS 1, 2, 16.",
         note="Go-memory-model data races cannot be exhibited by the model (named in DESIGN.md); validation only. Fix fc27539 in /repo (rejected resources no longer break instance creation).",
         tech="Lean 4 theorems (value-semantics model) + pointer-graph check + race-detector runs", ref="5.C09"),
+ "C12": dict(text="Lean theorems C12_roundtrip (load(encode c) = c for every catalog), C12_truncation (every strict prefix of an encoding is rejected: all offsets, "
+        "by a compositional prefix-failure lemma over the decoder combinators), C12_restore, C12_overwrite_false; the per-type field sequences and the frame are "
+        "regenerated from ast/Serializer.go and proved equal to the model's schemas by decide (tie_write_eq_read, tie_schema, tie_frame). The Lean decoder is run "
+        "on the real streams (must re-encode byte-identically) and compared with the real loader at cut offsets; loaded instances vs model vs reference semantics.",
+        note="Map iteration order is stream order in the model. Removed rules are not stored (C16). Fixes a04190d (EOF is an error) and 72ac919 in /repo.",
+        tech="Lean 4 prefix-code proof over decoder combinators + regenerated wire schemas (decide tie) + byte-level correspondence", ref="5.C12"),
 }
 
 def main():
